@@ -3,11 +3,18 @@
    of C11_Proofs.  All hold for every scalar record S, every value `junk` of an
    uninitialised cell, every layout and every operation sequence of any length.
 
-   Premises that appear below are exactly the conditions under which the C++ is
-   defined: augmentWithNoise needs components >= 1 (unsigned loop bound),
-   `+=` needs an operand of equal dim and dim_covariance (concat_ok; equivalent
-   to the absence of an Eigen assertion, C11_concat_defined_iff).  The
-   invariant itself needs neither. *)
+   DEFINEDNESS.  The model functions are total; the C++ is not.  Histories are
+   therefore quantified through gm_run / gauss_run / ps_run, which execute an
+   operation only if gop_defined / gaussop_defined / pop_defined holds:
+   augmentWithNoise with a square matrix needs components >= 1 (the loop bound
+   `components - 1` is unsigned: GaussianMixture g(0,2); g.augmentWithNoise(I)
+   asserts / segfaults); `+=` and `+` need a DISTINCT right operand of equal dim
+   and dim_covariance (otherwise an Eigen assertion, undefined with NDEBUG);
+   the aliased calls p += p (PConcatSelf) and g.augmentWithNoise(g.covariance())
+   (G/N/PAugmentSelf: the argument refers to storage that is reallocated before
+   it is read) are defined only when nothing is reallocated.  The check runs such
+   "outside" operations on the library too and requires that it fails there
+   exactly when the model says undefined. *)
 Require Import ZArith QArith List Bool Arith.
 Require Import BFL.Ops BFL.ListOps BFL.C11_Model BFL.C11_Proofs.
 Import ListNotations.
@@ -27,29 +34,37 @@ Theorem C11_ctor_uniform_weights c l ci q i : i < c ->
   gm_weight S (gm_ctor S c l ci q) i = sdiv S (s1 S) (sofnat S c).
 Proof. exact (gm_ctor_uniform S c l ci q i). Qed.
 
-(* every operation preserves the invariant ... *)
-Theorem C11_inv o g : Consistent S g -> Consistent S (gm_apply S junk o g).
-Proof. exact (gm_apply_consistent S junk o g). Qed.
+(* every operation that is defined preserves the invariant (the premise marks where the
+   transcription is faithful; the proof does not need it) ... *)
+Theorem C11_inv o g : Consistent S g -> gop_defined S o g = true -> Consistent S (gm_apply S junk o g).
+Proof. exact (fun H _ => gm_apply_consistent S junk o g H). Qed.
 
-(* ... hence it holds after every operation sequence *)
-Theorem C11_reachable ops c l ci q :
-  Consistent S (fold_left (fun g o => gm_apply S junk o g) ops (gm_ctor S c l ci q)).
-Proof. exact (gm_reachable S junk ops c l ci q). Qed.
+(* ... hence it holds after every operation sequence along which the C++ is defined *)
+Theorem C11_reachable ops c l ci q g' :
+  gm_run S junk ops (gm_ctor S c l ci q) = Some g' -> Consistent S g'.
+Proof. exact (gm_run_consistent S junk ops _ g' (gm_ctor_consistent S c l ci q)). Qed.
 
-(* a Gaussian stays a consistent one-component mixture *)
-Theorem C11_gauss_reachable ops l ci q :
-  Gaussian_ok S (fold_left (fun g o => gauss_apply S junk o g) ops (gauss_ctor S l ci q)).
-Proof. exact (gauss_reachable S junk ops l ci q). Qed.
+(* a Gaussian stays a consistent mixture; it stays a ONE-component object as long as it is not
+   resized to another component count through a GaussianMixture& (NResizeBase c, c <> 1) *)
+Theorem C11_gauss_reachable ops l ci q g' :
+  gauss_run S junk ops (gauss_ctor S l ci q) = Some g' ->
+  Consistent S g' /\ (forallb (gaussop_single S) ops = true -> Gaussian_ok S g').
+Proof.
+  exact (fun R => conj (gauss_run_consistent S junk ops _ g' (gm_ctor_consistent S 1 l ci q) R)
+                       (fun Hs => gauss_run_ok S junk ops _ g' (conj (gm_ctor_consistent S 1 l ci q) eq_refl) Hs R)).
+Qed.
 
 (* particle sets: including the state storage, including noise augmentation and concatenation *)
-Theorem C11_pset_inv o p : Consistent_ps S p -> Consistent_ps S (ps_apply S junk o p).
-Proof. exact (ps_apply_consistent S junk o p). Qed.
+Theorem C11_pset_inv o p : Consistent_ps S p -> pop_defined S junk o p = true -> Consistent_ps S (ps_apply S junk o p).
+Proof. exact (fun H _ => ps_apply_consistent S junk o p H). Qed.
 
-Theorem C11_pset_reachable ops c l ci q :
-  Consistent_ps S (fold_left (fun p o => ps_apply S junk o p) ops (ps_ctor S c l ci q)).
-Proof. exact (ps_reachable S junk ops c l ci q). Qed.
+Theorem C11_pset_reachable ops c l ci q p' :
+  ps_run S junk ops (ps_ctor S c l ci q) = Some p' -> Consistent_ps S p'.
+Proof. exact (ps_run_consistent S junk ops _ p' (ps_ctor_consistent S c l ci q)). Qed.
 
-(* copy construction / assignment (and "move": no move constructor exists) reproduce every field *)
+(* copy construction / assignment (and "move": no move constructor exists) reproduce every field.
+   DEFINITIONAL: gm_copy is the member-wise copy, so this is the eta-rule of the record; the
+   content of the clause is on the correspondence side (the harness copies real objects). *)
 Theorem C11_copy_is_identity g p : gm_copy S g = g /\ ps_copy S p = p.
 Proof. exact (conj (gm_copy_id S g) (ps_copy_id S p)). Qed.
 
@@ -58,7 +73,10 @@ Theorem C11_invariant_executable g p :
   (gm_consistentb S g = true <-> Consistent S g) /\ (ps_consistentb S p = true <-> Consistent_ps S p).
 Proof. exact (conj (gm_consistentb_iff S g) (ps_consistentb_iff S p)). Qed.
 
-(* accessors of a consistent container are in range and address exactly component i's block *)
+(* accessors of a consistent container are in range (that part is the theorem: no Eigen assertion,
+   correct shapes) and address exactly component i's block (those cell equations are DEFINITIONAL:
+   the accessors are transcribed as mean_.col(i), covariance_.middleCols(dcov*i, dcov), ... and
+   close by unfolding; what ties them to the code is the harness, which calls every overload) *)
 Theorem C11_accessors g i : Consistent S g -> i < components S g ->
   (i < mcols S (mean_ S g) /\ dcov S g * i + dcov S g <= mcols S (cov_ S g) /\ i < mrows S (weight_ S g))
   /\ shape S (gm_mean S g i) (dim S g) 1 /\ shape S (gm_cov S g i) (dcov S g) (dcov S g)
@@ -76,8 +94,13 @@ Theorem C11_pset_accessors p i : Consistent_ps S p -> i < components S (base S p
         get S (ps_state S p i) r 0 = get S (state_ S p) r i /\ ps_state_el S p i r = get S (state_ S p) r i).
 Proof. exact (ps_accessors S p i). Qed.
 
+(* Gaussian::mean() / mean(i) / weight() are component 0 by definition; Gaussian::covariance()
+   returns the WHOLE storage, which is component 0's block only because components = 1 *)
 Theorem C11_gauss_accessors g : Gaussian_ok S g ->
-  gauss_mean S g = gm_mean S g 0 /\ gauss_cov S g = gm_cov S g 0 /\ gauss_weight S g = gm_weight S g 0.
+  gauss_mean S g = gm_mean S g 0 /\ gauss_weight S g = gm_weight S g 0
+  /\ (forall i, gauss_mean_el S g i = gm_mean_el S g 0 i)
+  /\ (forall i j, gauss_cov_el S g i j = gm_cov_el S g 0 i j)
+  /\ gauss_cov S g = gm_cov S g 0.
 Proof. exact (gauss_accessors S g). Qed.
 
 (* the blocks of distinct components are disjoint and cover the covariance storage *)
@@ -92,8 +115,12 @@ Theorem C11_components_view g i d : i < components S g ->
   /\ nth i (gm_comps S g) d = (gm_mean S g i, gm_cov S g i, gm_weight S g i).
 Proof. exact (fun H => conj (gm_comps_length S g) (gm_comps_nth S g i d H)). Qed.
 
-(* changing only the number of components (same linear/circular sizes, no noise part)
-   preserves the surviving components; the cells of new components are unspecified (junk) *)
+(* changing only the number of components preserves the surviving components; the cells of new
+   components are unspecified (junk: Eigen's conservativeResize does not initialise them).
+   "Only the number of components" means: same linear and circular sizes AND no noise part
+   (dn = 0).  resize(c, dl, dc) of an AUGMENTED mixture describes the noise-free layout: it also
+   shrinks dim and dim_covariance, takes the full-resize branch and does not preserve anything
+   (C11_resize_components_preserves_with_noise_refuted) - outside this clause of the property. *)
 Theorem C11_resize_components_preserves c g : Consistent S g -> dn S g = 0 ->
   let g' := gm_resize S junk c (dl S g) (dc S g) g in
   components S g' = c /\ dim S g' = dim S g /\ dcov S g' = dcov S g /\ dl S g' = dl S g /\ dc S g' = dc S g
@@ -162,12 +189,34 @@ Proof. exact (ps_concat_content S junk rhs p). Qed.
 Theorem C11_plus_is_concat lhs rhs : ps_plus S junk lhs rhs = ps_concat S junk rhs lhs.
 Proof. exact (ps_plus_is_concat S junk lhs rhs). Qed.
 
-(* the premise of C11_concat_content is exactly "no Eigen assertion in operator+=" *)
+(* for a right operand that is a DISTINCT object (the model passes it by value), the premise of
+   C11_concat_content is exactly "no Eigen assertion in operator+=" ... *)
 Theorem C11_concat_defined_iff rhs p : Consistent_ps S p -> Consistent_ps S rhs -> 1 <= components S (base S rhs) ->
   (ps_concat_defined S junk rhs p = true <-> concat_ok S rhs p).
 Proof. exact (fun Hp Hr Hn => conj (ps_concat_defined_needs S junk rhs p Hp Hr Hn) (ps_concat_defined_ok S junk rhs p Hp)). Qed.
 
+(* ... whereas the aliased call p += p (the operand is enlarged by the first conservativeResize
+   before it is read) is defined only for an empty set *)
+Theorem C11_concat_self_defined_iff p : Consistent_ps S p ->
+  (ps_concat_self_defined S junk p = true <-> components S (base S p) = 0).
+Proof. exact (ps_concat_self_defined_iff S junk p). Qed.
+
 End C11.
+
+(* what is NOT true of the code (witnesses over Z, replayed on the library by the corpus cases) *)
+Theorem C11_resize_components_preserves_with_noise_refuted :
+  exists (g : gm ZOps) (c i r : nat),
+    Consistent ZOps g /\ dn ZOps g = 1 /\ i < c /\ i < components ZOps g /\ r < dl ZOps g + dc ZOps g * dcc ZOps g
+    /\ gm_mean_el ZOps (gm_resize ZOps 0%Z c (dl ZOps g) (dc ZOps g) g) i r <> gm_mean_el ZOps g i r.
+Proof. exact gm_resize_with_noise_refuted. Qed.
+
+Theorem C11_gauss_base_resize_refuted :
+  exists (g : gm ZOps) (c l ci : nat),
+    Gaussian_ok ZOps g /\ Consistent ZOps (gauss_apply ZOps 0%Z (NResizeBase ZOps c l ci) g)
+    /\ ~ Gaussian_ok ZOps (gauss_apply ZOps 0%Z (NResizeBase ZOps c l ci) g)
+    /\ gauss_cov ZOps (gauss_apply ZOps 0%Z (NResizeBase ZOps c l ci) g)
+        <> gm_cov ZOps (gauss_apply ZOps 0%Z (NResizeBase ZOps c l ci) g) 0.
+Proof. exact gauss_base_resize_refuted. Qed.
 
 (* non-vacuity: a concrete run over exact rationals.  A 3-component mixture (1 linear, 1 circular
    Euler state) filled with 1..21, augmented with Q = (9), then again with a 2x2 Q, then only its
@@ -225,3 +274,6 @@ Print Assumptions C11_pset_augment_content.
 Print Assumptions C11_concat_content.
 Print Assumptions C11_plus_is_concat.
 Print Assumptions C11_concat_defined_iff.
+Print Assumptions C11_concat_self_defined_iff.
+Print Assumptions C11_resize_components_preserves_with_noise_refuted.
+Print Assumptions C11_gauss_base_resize_refuted.
